@@ -149,12 +149,12 @@ theorem round_trip (h : BaseHdr) (hv : Valid h) (prev : Option PicHdr)
   simp only
   rw [hp]
   simp only [pure_apply, Bool.false_eq_true, ↓reduceIte, Option.isSome_none, f1, f2, Bool.false_or]
-  have hfmt : ∀ p, prev = some p → (p.format != some (stdFmt h.srcFmt)) = false := by
-    intro p hp; rw [hprev p hp]; simp
-  cases hprv : prev with
-  | none => ?_
-  | some p0 => ?_
-  all_goals (first | simp only [hfmt _ hprv, Bool.false_eq_true, ↓reduceIte, pure_apply, bind_apply] | simp only [Bool.false_eq_true, ↓reduceIte, pure_apply, bind_apply])
+  have hfmt : Header.formatChanged prev (some (stdFmt h.srcFmt)) = false := by
+    unfold Header.formatChanged
+    cases hprv : prev with
+    | none => rfl
+    | some p => simp [hprev p hprv]
+  simp only [hfmt, Bool.false_eq_true, ↓reduceIte, pure_apply, bind_apply]
   all_goals (
     rw [readBits_natBits 8 5 h.quant (by omega) (by have := hv.q; omega)]
     simp only
